@@ -98,9 +98,9 @@ type mergeStmt struct {
 
 func runC03(c *core.Ctx) {
 	c.Rule("R1", "LWW decision table: incoming data overwrites a stored register iff missing ∨ newer ∨ (equal timestamp ∧ incoming tombstone ∧ stored not tombstone); field groups of a register are copied together and written back", 4)
-	c.Rule("R2", "every store into a receiver map is paired with recording the same key in the returned change; nil change is returned iff nothing was recorded", 3)
+	c.Rule("R2", "every store into a receiver map is paired with recording the same key in the returned change; nil change is returned iff nothing was recorded", 5)
 	c.Rule("R3", "normalisation of the incoming descriptor dominates the merge loop", 1)
-	c.Rule("R4", "stores outside the LWW loops and every use of the clock parameter are control-dependent on localCAS (gossip merges read no clock)", 2)
+	c.Rule("R4", "stores outside the LWW loops and every use of the clock parameter are control-dependent on localCAS (gossip merges read no clock)", 4)
 	c.Rule("R5", "one merge path: Merge is a pure delegation to the analysed merge function, and the KV store hands the decoded incoming value to Merge untouched", 3)
 	fns := mergeFns(c, "R1")
 	covered := map[string]bool{}
